@@ -15,7 +15,10 @@ EXTENDS Naturals, Sequences, TLC, TLCExt, Json, IOUtils
 ASSUME TLCSet(10, ndJsonDeserialize(IOEnv.TRACE)) /\ TLCSet(11, ndJsonDeserialize(IOEnv.TRACE2))
 A == TLCGet(10)
 B == TLCGet(11)
-Hidden == {"obs", "zmm", "dstk"}
+\* obs / zmm / dstk are the trampoline's own observations; chg / echg / mchg are the hash driver's "did these bytes change across
+\* the call" flags, computed against the pre-call content, which IS hidden input (garbage in not yet initialised fields): a field
+\* written with the value its garbage happened to hold reads as "unchanged" in one execution only
+Hidden == {"obs", "zmm", "dstk", "chg", "echg", "mchg"}
 Proj(e) == [k \in (DOMAIN e) \ Hidden |-> e[k]]
 
 VARIABLES l, viol
